@@ -80,7 +80,7 @@ func (g *genEncrypter) EncryptDict() pdfgen.Dict {
 			cfm = "AESV2"
 		}
 		d.Set("Length", pdfgen.Int(g.a.KeyBits))
-		d.Set("CF", pdfgen.D("StdCF", pdfgen.D("CFM", pdfgen.Name(cfm), "AuthEvent", pdfgen.Name("DocOpen")))) // CF /Length is optional; writers disagree on bits vs bytes
+		d.Set("CF", pdfgen.D("StdCF", pdfgen.D("CFM", pdfgen.Name(cfm), "AuthEvent", pdfgen.Name("DocOpen"), "Length", g.a.KeyBits))) // pdfcpu demands CF /Length and reads it as bits below PDF 2.0
 		d.Set("StmF", pdfgen.Name("StdCF"))
 		d.Set("StrF", pdfgen.Name("StdCF"))
 	case 5, 6:
